@@ -157,9 +157,9 @@ def parse_C(sec):
 def project(prop, op, line):
     """the part of a world output line that property `prop` is about; a difference
     outside it is another property's business"""
-    if op == "cfg" and " tlsctx:" in line:
+    if op == "cfg" and (" tlsctx:" in line or " macopts:" in line):
         # how the configuration was taken in is everybody's business
-        return repr((sorted(t for t in line.split(" | ")[0].split() if t.startswith("tlsctx:")), _project(prop, op, line)))
+        return repr((sorted(t for t in line.split(" | ")[0].split() if t.startswith("tlsctx:") or t.startswith("macopts:")), _project(prop, op, line)))
     return _project(prop, op, line)
 
 
@@ -595,3 +595,10 @@ def srvconn_history(exe, rng, idx):
     for k in range(h.ncl):
         h.send("pop %d" % k)
     return h.finish(kind="srvconn")
+
+
+def cfg_only_history(exe, rng, idx):
+    """a generated configuration taken in by the real getmainconfig(), nothing else: how its global options were understood"""
+    cfg = W.rand_cfg(rng, rewrites=rng.random() < 0.3, ttl=rng.random() < 0.5)
+    h = Hist(exe, rng, cfg)
+    return h.finish(kind="cfg-only", valid=1)
